@@ -890,6 +890,16 @@ pub fn lane_env(seed: u64) -> Vec<Scenario> {
                             d.loose_front_matter = true;
                         }
                     }
+                    // another shell that exists, named in the front-matter, on the command line, or both
+                    // (the simulator does not care which one it is; scrut must start the configured one)
+                    if f == Format::Md && g.chance(25) {
+                        for d in docs.iter_mut().filter(|d| d.main) {
+                            d.shell = Some((*g.pick(&["/bin/sh", "sh", "/usr/bin/bash"])).to_string());
+                        }
+                        if g.chance(30) {
+                            cli.shell = Some((*g.pick(&["/bin/bash", "/bin/sh"])).to_string());
+                        }
+                    }
                     // the first document is a symbolic link to a file that lives elsewhere
                     if layout == "one" && g.chance(50) {
                         if let Some(d) = docs.iter_mut().find(|d| d.main) {
